@@ -9,23 +9,33 @@ import (
 	"testing"
 	"time"
 
+	"verifharness/internal/vh"
+
 	"github.com/nspcc-dev/neo-go/pkg/core/storage"
 	"github.com/nspcc-dev/neo-go/pkg/core/storage/dbconfig"
 )
 
-func TestProbe(t *testing.T) {
+// TestLevelDBChurn is NOT part of the registered C09 verdict (its outcome depends on the timing of goleveldb's
+// background compaction). It reproduces an observation made while building the check: when one LevelDB database is
+// filled and completely emptied hundreds of times through LevelDBStore.PutChangeSet (one goleveldb transaction per
+// batch) with idle gaps in between, range scans start to miss committed keys or to return keys deleted long ago.
+// The same workload written with leveldb.Batch + db.Write instead of OpenTransaction/Commit does not show it.
+// Run: C09_LEVELDB_CHURN=1 go test -tags verif -run TestLevelDBChurn ./c09kv
+func TestLevelDBChurn(t *testing.T) {
+	if os.Getenv("C09_LEVELDB_CHURN") == "" {
+		t.Skip("set C09_LEVELDB_CHURN=1")
+	}
 	dir := t.TempDir()
 	s, err := storage.NewLevelDBStore(dbconfig.LevelDBOptions{DataDirectoryPath: dir})
 	if err != nil {
 		t.Fatal(err)
 	}
 	defer s.Close()
-	r := rand.New(rand.NewSource(2))
+	r := rand.New(rand.NewSource(vh.Seed() + 1))
 	al := []byte{0, 0x70, 0xff}
 	bad := 0
-	useGC := os.Getenv("PROBE_GC") != ""
 	model := map[string][]byte{}
-	for round := 0; round < 8000 && bad < 3; round++ {
+	for round := 0; round < 20000 && bad < 3; round++ {
 		batch := map[string][]byte{}
 		for i := 1 + r.Intn(3); i > 0; i-- {
 			k := []byte{0x70}
@@ -49,7 +59,6 @@ func TestProbe(t *testing.T) {
 			for j := r.Intn(3); j > 0; j-- {
 				p = append(p, al[r.Intn(3)])
 			}
-			back := r.Intn(2) == 0
 			var ks []string
 			for mk := range model {
 				if bytes.HasPrefix([]byte(mk), p) {
@@ -57,38 +66,29 @@ func TestProbe(t *testing.T) {
 				}
 			}
 			sort.Strings(ks)
-			var exp []string
+			var exp, got []string
 			for _, mk := range ks {
 				exp = append(exp, mk+"="+string(model[mk]))
 			}
-			if back {
-				for i, j := 0, len(exp)-1; i < j; i, j = i+1, j-1 {
-					exp[i], exp[j] = exp[j], exp[i]
-				}
-			}
-			var got []string
-			s.Seek(storage.SeekRange{Prefix: p, Backwards: back}, func(k, v []byte) bool { got = append(got, string(k)+"="+string(v)); return true })
+			s.Seek(storage.SeekRange{Prefix: p}, func(k, v []byte) bool { got = append(got, string(k)+"="+string(v)); return true })
 			if fmt.Sprintf("%x", exp) != fmt.Sprintf("%x", got) {
-				fmt.Printf("round %d prefix %x back %v:\n exp %x\n got %x\n", round, p, back, exp, got)
+				t.Logf("round %d prefix %x: expected %x got %x", round, p, exp, got)
 				bad++
 			}
 		}
 		if r.Intn(3) == 0 {
 			time.Sleep(time.Duration(r.Intn(4000)) * time.Microsecond)
 		}
-		if useGC && round%7 == 6 {
-			if os.Getenv("PROBE_GC") == "batch" {
-				del := map[string][]byte{}
-				s.Seek(storage.SeekRange{}, func(k, v []byte) bool { del[string(k)] = nil; return true })
-				if err := s.PutChangeSet(nil, del); err != nil {
-					t.Fatal(err)
-				}
-			} else if err := s.SeekGC(storage.SeekRange{}, func(k, v []byte) (bool, bool) { return false, true }); err != nil {
+		if round%7 == 6 { // empty the database
+			del := map[string][]byte{}
+			s.Seek(storage.SeekRange{}, func(k, v []byte) bool { del[string(k)] = nil; return true })
+			if err := s.PutChangeSet(nil, del); err != nil {
 				t.Fatal(err)
 			}
 			model = map[string][]byte{}
 		}
 	}
-	b, _ := os.ReadFile(dir + "/LOG")
-	fmt.Println("errors in LOG:", bytes.Count(b, []byte("error")), "moves:", bytes.Count(b, []byte("table@move")))
+	if bad > 0 {
+		t.Fatalf("LevelDBStore returned wrong range scans (%d)", bad)
+	}
 }
